@@ -90,10 +90,9 @@ func (w *WebsocketConnection) run() {
 // writePump pumps messages from the SPINE and SHIP writeChannels to the websocket connection
 func (w *WebsocketConnection) writeShipPump() {
 	ticker := time.NewTicker(pingPeriod)
-	defer func() {
-		ticker.Stop()
-		close(w.shipWriteChannel)
-	}()
+	// the write channel is not closed when the pump ends, as writers may still
+	// be about to send to it. They get released via the close channel instead.
+	defer ticker.Stop()
 
 	for {
 		select {
@@ -257,8 +256,13 @@ func (w *WebsocketConnection) WriteMessageToWebsocketConnection(message []byte) 
 		return errors.New(connIsClosedError)
 	}
 
-	w.shipWriteChannel <- message
-	return nil
+	select {
+	case w.shipWriteChannel <- message:
+		return nil
+	case <-w.closeChannel:
+		// the connection got closed while waiting for the message to be queued
+		return errors.New(connIsClosedError)
+	}
 }
 
 // make sure websocket Write is only called once at a time
